@@ -148,16 +148,6 @@ package retrypolicy
 //@   ensures [C02.allows] result == (c.maxRetries == -1 || c.maxRetries > 0)
 //@   modifies nothing
 
-//@ func (*config).WithMaxAttempts
-//@   builder
-//@   requires c != nil && maxAttempts >= -1 && maxAttempts != 0
-//@   ensures [C02.maxattempts] c.maxRetries == ite(maxAttempts == -1, -1, maxAttempts - 1)
-//@   modifies c.maxRetries
-//@ func (*config).WithMaxRetries
-//@   builder
-//@   requires c != nil
-//@   ensures [C02.maxretries] c.maxRetries == maxRetries
-//@   modifies c.maxRetries
 
 // A fresh executor per execution: the budget belongs to one execution (C02), the state is confined (C14).
 //@ func (*retryPolicy).ToExecutor
@@ -236,6 +226,7 @@ package retrypolicy
 //@ func lemmaHedgeOverRetry
 //@   noexitcover
 //@   dyntype hedgepolicy.HedgePolicy *hedgepolicy.hedgePolicy only
+//@   inlinecalls (*hedgePolicy).ToExecutor
 //@   requires hp != nil && typeis(hp, *hedgepolicy.hedgePolicy) && e != nil && fn != nil && typeis(exec, *failsafe.execution)
 //@   requires asref(hp, *hedgepolicy.hedgePolicy).config != nil && asref(hp, *hedgepolicy.hedgePolicy).config.BaseAbortablePolicy != nil && asref(hp, *hedgepolicy.hedgePolicy).config.delayFunc != nil
 //@   requires 0 <= asref(hp, *hedgepolicy.hedgePolicy).config.maxHedges && asref(hp, *hedgepolicy.hedgePolicy).config.maxHedges <= 1073741824
@@ -251,3 +242,82 @@ package retrypolicy
 //@   ensures [C02.build.own_config+C13.build.own_config] result != nil && typeis(result, *retryPolicy) && tc != nil && tc != c && fresh(tc) && tc.maxRetries == c.maxRetries && tc.maxDuration == c.maxDuration && tc.maxDelay == c.maxDelay && tc.delayFactor == c.delayFactor && tc.delayMin == c.delayMin && tc.delayMax == c.delayMax && tc.jitter == c.jitter && tc.jitterFactor == c.jitterFactor && tc.returnLastFailure == c.returnLastFailure
 //@   ensures [C16.retry.build_own_listeners] tc.onAbort == c.onAbort && tc.onRetry == c.onRetry && tc.onRetryScheduled == c.onRetryScheduled && tc.onRetriesExceeded == c.onRetriesExceeded && tc.BaseFailurePolicy == c.BaseFailurePolicy && tc.BaseDelayablePolicy == c.BaseDelayablePolicy && tc.BaseAbortablePolicy == c.BaseAbortablePolicy
 //@   modifies nothing
+
+// ---------------------------------------------------------------------------------------------
+// Builder: defaults and setters (each setter changes what its name says and nothing else that the delay / budget proofs read).
+//@ macro retryCfgSame(c, skip) = (skip == 1 || c.maxRetries == old(c.maxRetries)) && (skip == 2 || c.maxDuration == old(c.maxDuration)) && (skip == 3 || (c.maxDelay == old(c.maxDelay) && c.delayFactor == old(c.delayFactor) && c.delayMin == old(c.delayMin) && c.delayMax == old(c.delayMax) && c.Delay == old(c.Delay))) && (skip == 4 || c.jitter == old(c.jitter)) && (skip == 5 || c.jitterFactor == old(c.jitterFactor)) && (skip == 6 || c.returnLastFailure == old(c.returnLastFailure))
+//@ func Builder
+//@   builder
+//@   let c := asref(result, *config)
+//@   ensures [C02.builder.defaults+C13.builder.defaults] typeis(result, *config) && fresh(c) && c.maxRetries == 2 && c.maxDuration == 0 && c.maxDelay == 0 && c.delayMin == 0 && c.delayMax == 0 && c.jitter == 0 && c.jitterFactor == 0 && !c.returnLastFailure && c.BaseFailurePolicy != nil && c.BaseDelayablePolicy != nil && c.BaseAbortablePolicy != nil && c.Delay == 0 && c.DelayFunc == nil && len(c.failureConditions) == 0 && len(c.abortConditions) == 0 && !c.errorsChecked
+//@   modifies nothing
+//@ func (*config).WithMaxRetries
+//@   builder
+//@   requires c != nil && c.BaseDelayablePolicy != nil
+//@   ensures [C02.builder.max_retries] c.maxRetries == maxRetries && retryCfgSame(c, 1) && result == asiface(c)
+//@   modifies c.maxRetries
+//@ func (*config).WithMaxAttempts
+//@   builder
+//@   requires c != nil && c.BaseDelayablePolicy != nil && maxAttempts >= -1
+//@   ensures [C02.builder.max_attempts] c.maxRetries == ite(maxAttempts == -1, -1, maxAttempts - 1) && retryCfgSame(c, 1) && result == asiface(c)
+//@   modifies c.maxRetries
+//@ func (*config).WithMaxDuration
+//@   builder
+//@   requires c != nil && c.BaseDelayablePolicy != nil
+//@   ensures [C02.builder.max_duration+C13.builder.max_duration] c.maxDuration == maxDuration && retryCfgSame(c, 2) && result == asiface(c)
+//@   modifies c.maxDuration
+//@ func (*config).ReturnLastFailure
+//@   builder
+//@   requires c != nil && c.BaseDelayablePolicy != nil
+//@   ensures [C02.builder.return_last_failure] c.returnLastFailure && retryCfgSame(c, 6) && result == asiface(c)
+//@   modifies c.returnLastFailure
+//@ func (*config).WithDelay
+//@   builder
+//@   requires c != nil && c.BaseDelayablePolicy != nil
+//@   ensures [C13.builder.delay] c.Delay == delay && c.maxDelay == old(c.maxDelay) && c.delayMin == old(c.delayMin) && c.delayMax == old(c.delayMax) && c.jitter == old(c.jitter) && c.jitterFactor == old(c.jitterFactor) && result == asiface(c)
+//@   modifies c.BaseDelayablePolicy.Delay
+//@ func (*config).WithBackoffFactor
+//@   builder
+//@   requires c != nil && c.BaseDelayablePolicy != nil
+//@   ensures [C13.builder.backoff_factor] c.Delay == delay && c.maxDelay == maxDelay && c.delayFactor == delayFactor && c.delayMin == 0 && c.delayMax == 0 && c.jitter == old(c.jitter) && c.jitterFactor == old(c.jitterFactor) && c.maxDuration == old(c.maxDuration) && c.maxRetries == old(c.maxRetries) && result == asiface(c)
+//@   modifies c.BaseDelayablePolicy.Delay, c.maxDelay, c.delayFactor, c.delayMin, c.delayMax
+//@ func (*config).WithBackoff
+//@   builder
+//@   requires c != nil && c.BaseDelayablePolicy != nil
+//@   ensures [C13.builder.backoff] c.Delay == delay && c.maxDelay == maxDelay && c.delayFactor == 2 && c.delayMin == 0 && c.delayMax == 0 && result == asiface(c)
+//@   modifies c.BaseDelayablePolicy.Delay, c.maxDelay, c.delayFactor, c.delayMin, c.delayMax
+//@ func (*config).WithRandomDelay
+//@   builder
+//@   requires c != nil && c.BaseDelayablePolicy != nil
+//@   ensures [C13.builder.random_delay] c.delayMin == delayMin && c.delayMax == delayMax && c.Delay == 0 && c.maxDelay == 0 && c.jitter == old(c.jitter) && c.jitterFactor == old(c.jitterFactor) && result == asiface(c)
+//@   modifies c.BaseDelayablePolicy.Delay, c.maxDelay, c.delayMin, c.delayMax
+//@ func (*config).WithJitter
+//@   builder
+//@   requires c != nil && c.BaseDelayablePolicy != nil
+//@   ensures [C13.builder.jitter] c.jitter == jitter && retryCfgSame(c, 4) && result == asiface(c)
+//@   modifies c.jitter
+//@ func (*config).WithJitterFactor
+//@   builder
+//@   requires c != nil && c.BaseDelayablePolicy != nil
+//@   ensures [C13.builder.jitter_factor] c.jitterFactor == jitterFactor && retryCfgSame(c, 5) && result == asiface(c)
+//@   modifies c.jitterFactor
+//@ func (*config).OnAbort
+//@   builder
+//@   requires c != nil
+//@   ensures [C16.retry.listener_registered_abort] c.onAbort == listener && c.onRetry == old(c.onRetry) && c.onRetryScheduled == old(c.onRetryScheduled) && c.onRetriesExceeded == old(c.onRetriesExceeded) && result == asiface(c)
+//@   modifies c.onAbort
+//@ func (*config).OnRetry
+//@   builder
+//@   requires c != nil
+//@   ensures [C16.retry.listener_registered_retry] c.onRetry == listener && c.onAbort == old(c.onAbort) && c.onRetryScheduled == old(c.onRetryScheduled) && c.onRetriesExceeded == old(c.onRetriesExceeded) && result == asiface(c)
+//@   modifies c.onRetry
+//@ func (*config).OnRetryScheduled
+//@   builder
+//@   requires c != nil
+//@   ensures [C16.retry.listener_registered_scheduled] c.onRetryScheduled == listener && c.onAbort == old(c.onAbort) && c.onRetry == old(c.onRetry) && c.onRetriesExceeded == old(c.onRetriesExceeded) && result == asiface(c)
+//@   modifies c.onRetryScheduled
+//@ func (*config).OnRetriesExceeded
+//@   builder
+//@   requires c != nil
+//@   ensures [C16.retry.listener_registered_exceeded] c.onRetriesExceeded == listener && c.onAbort == old(c.onAbort) && c.onRetry == old(c.onRetry) && c.onRetryScheduled == old(c.onRetryScheduled) && result == asiface(c)
+//@   modifies c.onRetriesExceeded
